@@ -22,11 +22,11 @@ func (s LS) String() string { return [...]string{"unknown", "held", "unheld", "h
 
 // Lockset is the result of the lock-state analysis for one mutex field.
 type Lockset struct {
-	P     *ir.Prog
-	Mutex *types.Var
-	funcs []*ir.Func
-	entry map[*ir.Func]LS
-	in    map[*ir.Func]map[*cfgx.Node]LS // state before the node executes
+	P      *ir.Prog
+	Mutex  *types.Var
+	funcs  []*ir.Func
+	entry  map[*ir.Func]LS
+	in     map[*ir.Func]map[*cfgx.Node]LS // state before the node executes
 	viewOf func(*ir.Func) *ir.Func
 }
 
